@@ -73,6 +73,13 @@ def crc_zero_prefix_tms(rng, want=4):
 
 def events(ctx):
     rng = ctx.rng
+    from ..core import source_constants
+    from ..ops_ecss import mk_tm as _mk
+    for c in source_constants():
+        raw = list(bytes(_mk({"ver": 0, "apid": 0x2CF, "seq": 0x3C1D, "service": 17, "subservice": 2, "msgcnt": 5, "dest": 7, "timeref": 0,
+                              "stamp": [64, 1, 2, 3, 4, 5, 6], "data": [1, 2, 3]}, "tm").pack()))
+        yield record("tm.unpack", {"octets": list(c) + raw, "tslen": 7, "via": "tm"})
+        yield record("tm.unpack", {"octets": list(c) + raw[len(c):], "tslen": 7, "via": "tm"})
     for p in crc_zero_prefix_tms(rng):
         for via in ("tm", "setter", "bytearray"):
             yield record("tm.rt", {"p": p, "sfx": [], "via": via})
